@@ -197,11 +197,11 @@ def explore_cfg(acc: Acc, cfg: Cfg, tier: str, only_k: Optional[int] = None, onl
 def configs(tier: str) -> List[Cfg]:
     classes = dw.start_classes("quick")
     if tier == "quick":
-        plans = [("base", ()), ("norm+sym", ("a", "ab")), ("ver:a,b", ()), ("inf2", ("a",))]
+        plans = [("base", ()), ("norm+sym", ("a", "ab")), ("ver:a,b", ()), ("inf2", ("a",)), ("oneway+inf1", ())]
         dbs = DBS
     else:
         plans = [("base", ()), ("base", ("a", "ab")), ("norm+sym", ("a", "ab")), ("sym", ()), ("ver:a,b", ()), ("ver:e", ("a",)),
-                 ("inf2", ("a",)), ("inf1", ()), ("rfac", ()), ("sfac", ()), ("two", ()), ("base+iter", ()), ("rfac+sym", ("a",))]
+                 ("inf2", ("a",)), ("inf1", ()), ("rfac", ()), ("sfac", ()), ("two", ()), ("base+iter", ()), ("rfac+sym", ("a",)), ("oneway+inf1", ()), ("onewayexp+inf1+sym", ()), ("oneway+inf2", ("a",)), ("rfac2", ())]
         dbs = DBS
     res = []
     for c in classes:
